@@ -174,6 +174,7 @@ func schedules(c *fw.Ctx, p corpus.Prog, n, bound, fine int) {
 		return
 	}
 	fp := bcv.Fingerprint(bc)
+	deep := bcv.DeepFingerprint(bc)
 	at := corpus.AttrsText(attrs)
 	solo := make([]string, n)
 	for i := range solo {
@@ -238,6 +239,11 @@ func schedules(c *fw.Ctx, p corpus.Prog, n, bound, fine int) {
 		if again := corpus.RunOne(bc, i); again != solo[i] {
 			fails["poisoned"] = &failure{what: fmt.Sprintf("after the concurrent runs, VM %d alone returns %s; before %s", i, trunc(again, 600), trunc(solo[i], 600))}
 		}
+	}
+	// everything reachable from the Bytecode, unexported fields included: a cache filled by the first run that
+	// needs it is written while other VMs read it
+	if g := bcv.DeepFingerprint(bc); g != deep {
+		fails["bytecode-modified-deep"] = &failure{what: "running wrote to something reachable from the shared Bytecode (an unexported field: a cache?): " + firstDiff(deep, g)}
 	}
 	c.AddEval(stats.Executions)
 	c.AddTraces(stats.Executions)
@@ -473,4 +479,27 @@ func racePass(c *fw.Ctx, progs []corpus.Prog, mine []int) {
 		}
 		mine = mine[done+1:]
 	}
+}
+
+// firstDiff shows where two renderings part.
+func firstDiff(a, b string) string {
+	i := 0
+	for i < len(a) && i < len(b) && a[i] == b[i] {
+		i++
+	}
+	lo := i - 120
+	if lo < 0 {
+		lo = 0
+	}
+	cut := func(s string) string {
+		hi := i + 120
+		if hi > len(s) {
+			hi = len(s)
+		}
+		if lo > len(s) {
+			return ""
+		}
+		return s[lo:hi]
+	}
+	return fmt.Sprintf("before ...%s... after ...%s...", cut(a), cut(b))
 }
